@@ -426,5 +426,18 @@ _amend("C01", "text", "(R01.1-R01.41;", "(R01.1-R01.44;")
 _amend("C01", "text", "Decides forty-one structural", "Decides forty-four structural")
 _amend("C09", "text", "(R09.1, R09.3-R09.23, DESIGN.md §4 C09;", "(R09.1, R09.3-R09.25, DESIGN.md §4 C09;")
 
+_amend("C01", "text", "(R01.1-R01.44;", "(R01.1-R01.47; R01.46(c) reports a known finding, an else block dissolved into a scope with kept names, K17;")
+_amend("C01", "text", "Decides forty-four structural", "Decides forty-seven structural")
+_amend("C01", "text", "Does not decide the correctness of the algebraic rewrites.", "A `!` in front of a function, class or let[ operand is written only where the operand is the whole statement (three-valued evaluation of the dominating tests under prec != js.OpExpr); a block is merged into its parent scope only behind a comparison of its declarations with the names the parent uses and, for the global scope, declares; only an unlabelled jump is removed from the end of a list. Does not decide the correctness of the algebraic rewrites.")
+_amend("C02", "text", "(R02.1-R02.10,", "(R02.1-R02.10 and R02.13 = R01.46, whose clause (c) reports the known finding K17,")
+_amend("C03", "text", "Decides nineteen local clauses (R03.1-R03.19", "Decides twenty local clauses (R03.1-R03.20; R03.20: html, head and body tags are not dropped in front of a comment that is kept; R03.18 = R09.20 now also for octal escapes, regular expression classes and `<!--`")
+_amend("C05", "text", "(R05.1-R05.23,", "(R05.1-R05.25,")
+_amend("C05", "text", "xml:space=\"preserve\" removed; degenerate curve to line before a smooth curve (cubic, quadratic). Path geometry,", "xml:space=\"preserve\" removed. The degenerate-curve findings are repaired (look-ahead at the command that follows, R05.25: the field is set before every copyInstruction call, a dropped zero-length line restores the control point state and is kept in front of a smooth curve); a DOCTYPE with an internal subset is recognised behind white space (R05.24); a dropped processing instruction does not reset the `]` count. Path geometry,")
+_amend("C09", "text", "(R09.1, R09.3-R09.25, DESIGN.md §4 C09;", "(R09.1, R09.3-R09.25 with R09.20(b)-(d): octal escapes, regular expression classes and `<!--` in script text, DESIGN.md §4 C09;")
+_amend("C12", "text", "(R12.1-R12.8, DESIGN.md §4 C12)", "(R12.1-R12.9, DESIGN.md §4 C12; R12.9: the goroutine releases the wait group only after everything that touches the destination or the error)")
+_amend("C13", "text", "(R13.1-R13.7, DESIGN.md §4 C13)", "(R13.1-R13.9, DESIGN.md §4 C13; R13.2 also reports an append to a reslice of a value that may be a package-level slice; R13.9: every minifier that creates a parse.Input restores it)")
+_amend("C16", "text", "for a frozen table of (option, effect) instances", "for a frozen table of (option, effect) instances (the value of on/off and button inputs counts as a default attribute value)")
+_amend("C18", "text", "(R18.1-R18.11, DESIGN.md §4 C18)", "(R18.1-R18.12, DESIGN.md §4 C18; R18.12: a length computed from the payload is not read after the payload was assigned again)")
+
 if __name__ == "__main__":
     main()
